@@ -87,8 +87,8 @@ class Check:
     def go_build(self):
         os.makedirs(os.path.join(self.harness, "bin"), exist_ok=True)
         shutil.copy(os.path.join(REPO, "go.sum"), os.path.join(self.harness, "go.sum"))
-        rc, out = run(["go", "build", "-tags", "verif", "-o", os.path.join(self.harness, "bin", "corr"),
-                       "./cmd/corr"], cwd=self.harness, env=GOENV, timeout=900)
+        rc, out = run(["go", "build", "-tags", "verif", "-o", os.path.join(self.harness, "bin", self.pid.lower()),
+                       "./cmd/" + self.pid.lower()], cwd=self.harness, env=GOENV, timeout=900)
         return rc, out
 
     # ---------------------------------------------------------------- audit
@@ -186,7 +186,7 @@ class Check:
         outp = os.path.join(self.work, f"corr-{tag}.txt")
         env = dict(GOENV)
         env["GOMEMLIMIT"] = "6GiB"
-        rc, out = run(["timeout", "1800", os.path.join(self.harness, "bin", "corr"), "-prop", self.pid,
+        rc, out = run(["timeout", "1800", os.path.join(self.harness, "bin", self.pid.lower()), "-prop", self.pid,
                        "-seed", str(seed), "-n", str(n), "-out", outp], cwd=self.harness, env=env)
         if rc != 0:
             return dict(seed=seed, n=n, error=f"harness exited {rc}: {out[-1500:]}", cases=[], meta=[])
@@ -202,7 +202,7 @@ class Check:
             sites.append(parts[2] if len(parts) > 2 else None)
         opf = os.path.join(self.work, f"ops-{tag}.txt")
         open(opf, "w").write("".join(o + "\n" for o in ops))
-        drv = os.path.join(self.lean, ".lake", "build", "bin", "driver")
+        drv = os.path.join(self.lean, ".lake", "build", "bin", "drv_" + self.pid.lower())
         with open(opf) as fin:
             p = subprocess.run(["timeout", "3000", drv], stdin=fin, stdout=subprocess.PIPE, stderr=subprocess.PIPE, text=True)
         models = p.stdout.split("\n")
@@ -331,14 +331,14 @@ def do_replay(root, pid, path):
         print("replay has no single operation line; re-run ./check", pid)
         return 0
     lean = os.path.join(root, "lean")
-    drv = os.path.join(lean, ".lake", "build", "bin", "driver")
+    drv = os.path.join(lean, ".lake", "build", "bin", "drv_" + pid.lower())
     p = subprocess.run([drv], input=rp["op"] + "\n", stdout=subprocess.PIPE, text=True)
     print("model now   :", p.stdout.strip())
     print("model then  :", rp.get("model_output"))
     # implementation: regenerate the same case from the same seed
     outp = os.path.join(root, ".work", "replay.txt")
     os.makedirs(os.path.dirname(outp), exist_ok=True)
-    rc, out = run([os.path.join(root, "harness", "bin", "corr"), "-prop", pid, "-seed", str(rp["seed"]),
+    rc, out = run([os.path.join(root, "harness", "bin", pid.lower()), "-prop", pid, "-seed", str(rp["seed"]),
                    "-n", str(rp["n"]), "-out", outp], cwd=os.path.join(root, "harness"), env=GOENV)
     impl_now = None
     for line in open(outp, errors="replace"):
@@ -374,7 +374,7 @@ def main(root, argv):
     log(f"{pid} tier={tier} seed={seed}")
     ok_gen = c.regen(cfg)
     module = cfg["module"]
-    rc, out = c.lake_build([module, "driver"])
+    rc, out = c.lake_build([module, "drv_" + pid.lower()])
     proofs_ok = rc == 0 and ok_gen
     if rc != 0:
         errs = [l for l in out.splitlines() if "error" in l][:20]
@@ -394,8 +394,8 @@ def main(root, argv):
     rcg, outg = c.go_build()
     if rcg != 0:
         c.violations.append(dict(site=f"corr:{pid}/harness-does-not-build", kind="correspondence-broken", found_input=False,
-                                 detail=outg[-1500:], replay=dict(error="go build -tags verif ./cmd/corr failed", output=outg[-3000:])))
-    elif rc == 0 or os.path.exists(os.path.join(c.lean, ".lake", "build", "bin", "driver")):
+                                 detail=outg[-1500:], replay=dict(error="go build -tags verif ./cmd/<pid> failed", output=outg[-3000:])))
+    elif rc == 0 or os.path.exists(os.path.join(c.lean, ".lake", "build", "bin", "drv_" + pid.lower())):
         hook = cfg.get("pre_corr")
         if hook:
             hook(c, cfg)
